@@ -290,7 +290,11 @@ def doc_search(doc, qkind):
         for n in names[:6]:
             if len(n) <= 2 or n in ('itemize', 'enumerate', 'item', 'newcommand', 'renewcommand', 'providecommand', 'equation', 'verbatim',
                                     'section*', 'align*', 'section', 'align'):
-                got = getattr(soup, n)
+                try:
+                    got = getattr(soup, n)
+                except Exception as e:
+                    SX.check(False, 'C03:attribute-access', lambda: {'source': src, 'name': n, 'error': repr(e)[:200]})
+                    continue
                 f = soup.find(n)
                 SX.check((got is None and f is None) or (got is not None and f is not None and got.expr is f.expr),
                          'C03:attribute-access', lambda: {'source': src, 'name': n})
